@@ -73,3 +73,15 @@ claim("C15",
       "Retained readings vs an untrimmed twin depends on run-time window contents and is not decided.",
       "value numbering of the trim predicate + ordering rule + position-taint analysis",
       "DESIGN.md §4 C15")
+_VN_TEXT = ("For every class of the group the helper wiring and every guarded return path of _calculate_reading are lowered to a polynomial/Herbrand normal form and shown equal to a reference definition "
+            "transcribed from the property statement (same guards, equal values as rational functions, equal managed-series state). This decides 'the formula is the definition' for all inputs and parameters at once - "
+            "a wrong window edge, swapped band, smoothing constant off by one or a changed warm-up guard changes the normal form although it stays inside the test suite's one-significant-digit tolerance. ")
+claim("C04", _VN_TEXT + "Position independence is decided outright by taint analysis (the absolute index never reaches a value or a branch of a moving average).",
+      "Floating-point error 'within rounding' and the range clause beyond the convex-combination shape are not decided; slots the statement leaves open are not compared. The reference definitions (spec/refs.py) are part of the trusted base.",
+      "polynomial global value numbering against a definition table + position-taint analysis", "DESIGN.md §4 C04-C06")
+claim("C05", _VN_TEXT,
+      "Floating-point error is not decided; STDEV warm-up index, HL window length are taken from the shipped code (statement silent). Reference definitions are trusted.",
+      "polynomial global value numbering against a definition table", "DESIGN.md §4 C04-C06")
+claim("C06", _VN_TEXT,
+      "Floating-point error is not decided; VWAP before any volume and TSI with a zero denominator are unspecified slots. Reference definitions are trusted.",
+      "polynomial global value numbering against a definition table", "DESIGN.md §4 C04-C06")
